@@ -86,7 +86,9 @@ CLAIMS = {
          "compression; the portable compression function itself (src/portable.rs, c/blake3_portable.c: g, round, compress_pre, "
          "compress_in_place, compress_xof, word/byte conversions) is TRANSLATED statement by statement (gen/GenPortable.v) and proved "
          "equal to the model; the vector round, rotation helpers, transposes, transposing message loads and the per-block body of hashN of "
-         "all nine intrinsics kernels are TRANSLATED (gen/GenRounds.v) and proved equal to the kernel models; every load_counters* function of the C-intrinsics and Rust-intrinsics back ends is TRANSLATED statement by "
+         "all nine intrinsics kernels are TRANSLATED (gen/GenRounds.v) and proved equal to the kernel models; the row-vectorised compress_pre / "
+         "compress_in_place / compress_xof of the five SSE / AVX-512 files are TRANSLATED (gen/GenRows.v) and proved equal to the portable "
+         "compression; every load_counters* function of the C-intrinsics and Rust-intrinsics back ends is TRANSLATED statement by "
          "statement (gen/GenCounters.v over the intrinsic semantics of Model/Intrinsics.v) and proved equal to the counter models and "
          "to 'lane i = low/high word of counter + i' for all counters. Correspondence at kernel level for EVERY executable flavour (Rust asm/intrinsics/pure builds, C "
          "intrinsics, Unix assembly, Windows-GNU assembly via ms_abi) against the extracted portable model: block_len 0..64, "
